@@ -216,7 +216,8 @@ func (e *Enc) inline(fr *Frame, fn *ssa.Function, args []Term, st *State, reach 
 	var rets []*Exit
 	for _, ex := range exits {
 		if ex.kind == "panic" {
-			e.panicExit(sub, ex)
+			// explicit panics of inlined callees are exits of the caller
+			fr.exits = append(fr.exits, ex)
 			continue
 		}
 		rets = append(rets, ex)
@@ -247,7 +248,8 @@ func (e *Enc) inline(fr *Frame, fn *ssa.Function, args []Term, st *State, reach 
 
 // panicExit records the obligation that an explicit panic is unreachable (or satisfies the payload clause).
 func (e *Enc) panicExit(fr *Frame, ex *Exit) {
-	e.safe(fr, "panic", tTrue, not(ex.cond), ex.pos)
+	pf := &Frame{path: ex.path}
+	e.safe(pf, "panic", tTrue, not(ex.cond), ex.pos)
 }
 
 // ---------------------------------------------------------------- contract application at a call site
@@ -623,6 +625,13 @@ func (e *Enc) loopEnv(fr *Frame, h *ssa.BasicBlock, st *State, edgeFrom *ssa.Bas
 	if lc := fr.hdrEnv[h]; lc != nil {
 		env.pre = lc.preSt
 	}
+	for _, ins := range h.Instrs {
+		if nx, ok := ins.(*ssa.Next); ok && !nx.IsString {
+			if rng, ok := nx.Iter.(*ssa.Range); ok {
+				env.rangeKey, _ = e.rangeSeenKey(fr, rng)
+			}
+		}
+	}
 	// parameters (entry values)
 	for n, v := range e.paramTerms {
 		if fr.isTop {
@@ -739,11 +748,19 @@ func (e *Enc) havocLoopHeaps(fr *Frame, li *loopInfo, st *State) {
 		return
 	}
 	targets, whole := e.loopMemTargets(fr, li, keys)
+	freshOnly := e.loopFreshOnly(fr, li)
 	var ks []string
 	for k := range keys {
 		ks = append(ks, k)
 	}
 	sort.Strings(ks)
+	preHeaps := map[string]Term{}
+	for k, v := range st.heaps {
+		preHeaps[k] = v
+	}
+	if _, ok := preHeaps["$alloc"]; !ok {
+		preHeaps["$alloc"] = e.heapGet(st, e.allocKey())
+	}
 	for _, k := range ks {
 		old := e.heapGet(st, k)
 		if roots, ok := targets[k]; ok && !whole[k] && len(roots) > 0 {
@@ -766,6 +783,14 @@ func (e *Enc) havocLoopHeaps(fr *Frame, li *loopInfo, st *State) {
 		n := e.fresh("H_"+k+"_loop", e.heapSort[k])
 		if k == "$alloc" {
 			e.assume(tTrue, T(SBool, "(>= %s %s)", n.S, old.S))
+		}
+		if freshOnly[k] {
+			// written only through objects allocated inside the loop: objects that existed at loop entry keep their values
+			a0 := e.heapGet(&State{heaps: preHeaps, base: st.base}, e.allocKey())
+			if fr.isTop && e.entryState != nil {
+				a0 = e.heapGet(e.entryState, e.allocKey())
+			}
+			e.assume(tTrue, T(SBool, "(forall ((lr Int)) (! (=> (< lr %s) (= (select %s lr) (select %s lr))) :pattern ((select %s lr))))", a0.S, n.S, old.S, n.S))
 		}
 		st.heaps[k] = n
 	}
@@ -956,6 +981,11 @@ func (e *Enc) loopWrites(fr *Frame, li *loopInfo) (map[string]bool, bool) {
 				switch x := ins.(type) {
 				case *ssa.Store:
 					e.storeKeys(x.Addr, keys)
+				case *ssa.Next:
+					if rng, ok := x.Iter.(*ssa.Range); ok && !x.IsString {
+						k, _ := e.rangeSeenKey(&Frame{fn: fn, suffix: fr.suffix}, rng)
+						keys[k] = true
+					}
 				case *ssa.MapUpdate:
 					mt := x.Map.Type().Underlying().(*types.Map)
 					dk, vk, lk, _, _ := e.mapKeys(mt)
@@ -1224,4 +1254,69 @@ func liveBlocks(fn *ssa.Function) map[*ssa.BasicBlock]bool {
 		stack = append(stack, succs...)
 	}
 	return live
+}
+
+// loopFreshOnly: field heaps (and cells) that the loop's own blocks write only through objects allocated by an Alloc
+// inside the loop (per-iteration temporaries such as a struct copied out of a map).
+func (e *Enc) loopFreshOnly(fr *Frame, li *loopInfo) map[string]bool {
+	ok := map[string]bool{}
+	bad := map[string]bool{}
+	inLoopAlloc := func(v ssa.Value) bool {
+		a, isA := v.(*ssa.Alloc)
+		// for the function under proof any of its own allocations will do: the preserved region is "objects that
+		// existed when the function was entered"
+		return isA && (li.body[a.Block()] || fr.isTop)
+	}
+	for _, b := range fr.fn.Blocks {
+		if !li.body[b] {
+			continue
+		}
+		for _, ins := range b.Instrs {
+			switch x := ins.(type) {
+			case *ssa.Store:
+				tmp := map[string]bool{}
+				e.storeKeys(x.Addr, tmp)
+				fresh := false
+				switch a := x.Addr.(type) {
+				case *ssa.FieldAddr:
+					fresh = inLoopAlloc(a.X)
+				case *ssa.Alloc:
+					fresh = inLoopAlloc(a)
+				}
+				for k := range tmp {
+					if strings.HasPrefix(k, "F:") || strings.HasPrefix(k, "C:") {
+						if fresh {
+							ok[k] = true
+						} else {
+							bad[k] = true
+						}
+					}
+				}
+			case *ssa.Alloc:
+				el := x.Type().Underlying().(*types.Pointer).Elem()
+				if u, isS := el.Underlying().(*types.Struct); isS && !e.isElemPtrType(el) {
+					for i := 0; i < u.NumFields(); i++ {
+						k, _, _ := e.fieldKey(el, i)
+						ok[k] = true
+					}
+				} else if _, isArr := el.Underlying().(*types.Array); !isArr && !e.isElemPtrType(el) {
+					ok[e.cellKey(e.sortOf(el))] = true
+				}
+			case ssa.CallInstruction:
+				// calls may write anything their contracts/bodies allow: those keys are not fresh-only
+				sub := map[string]bool{}
+				e.callWrites(fr, x.Common(), sub)
+				for k := range sub {
+					bad[k] = true
+				}
+				if sub["*"] {
+					return map[string]bool{}
+				}
+			}
+		}
+	}
+	for k := range bad {
+		delete(ok, k)
+	}
+	return ok
 }
